@@ -274,6 +274,10 @@ func (vt *Model) update(seq ansi.Sequence) {
 			if len(seq.Parameters) > 0 {
 				return
 			}
+			if sixelTooLarge(seq.Data) {
+				log.Error("[term] sixel image too large")
+				return
+			}
 			// Write the raw sequence to the writer
 			buf := bytes.NewBuffer(nil)
 			// DCS
@@ -307,6 +311,54 @@ func (vt *Model) update(seq ansi.Sequence) {
 	case ansi.APC:
 		vt.postEvent(EventAPC{Payload: seq.Data})
 	}
+}
+
+// maxSixelSize is the largest width or height, in pixels, of a sixel image the
+// terminal accepts
+const maxSixelSize = 4096
+
+// sixelTooLarge reports whether sixel data describes an image wider or higher
+// than maxSixelSize. The decoder allocates width*height*4 bytes from the
+// raster attributes alone and loops over a repeat count without looking at
+// the remaining data, so a few bytes of output could exhaust the memory of (or
+// hang) the host application
+func sixelTooLarge(data []rune) bool {
+	var (
+		n     int // the number being read
+		x     int // width of the current sixel line
+		lines int // sixel lines of 6 pixels each
+	)
+	for _, c := range data {
+		switch {
+		case c >= '0' && c <= '9':
+			n = n*10 + int(c-'0')
+			if n > maxSixelSize {
+				return true
+			}
+			continue
+		case c == ' ' || c == '!':
+			continue
+		case c == '$':
+			x = 0
+		case c == '-':
+			x = 0
+			lines += 1
+			if lines*6 > maxSixelSize {
+				return true
+			}
+		case c >= '?' && c <= '~':
+			// a sixel, repeated n times after "!n"
+			if n == 0 {
+				n = 1
+			}
+			x += n
+			if x > maxSixelSize {
+				return true
+			}
+		}
+		n = 0
+	}
+	return false
 }
 
 func (vt *Model) String() string {
